@@ -1002,6 +1002,8 @@ static int CmdRun(const std::string& prop, Tier tier, uint64_t base_seed, int jo
                   << ",\"original_ops\":" << plan.ops.size() << ",\"minimise_evals\":" << evals
                   << ",\"violation\":{\"class\":" << JStr(mr.cls) << ",\"detail\":" << JStr(mr.detail) << ",\"trace_hash\":\"" << HexU64(mr.trace_hash) << "\"}"
                   << ",\"described\":" << DescribeOps(e, min, 200);
+            mkdir(g_verif_dir.c_str(), 0755);
+            mkdir((g_verif_dir + "/replays").c_str(), 0755);
             std::ofstream o(file);
             o << PlanToJson(min, extra.str()) << "\n";
         }
